@@ -159,6 +159,8 @@ def new_real(layer, F, seed, cfg_seed=None):
 
 def batch(layer, F, g):
     n = int(torch.randint(2, 7, (1,), generator=g))
+    if layer == "actnorm4d" and int(torch.randint(0, 3, (1,), generator=g)) == 0:
+        n = 1          # a single image still carries H*W samples per channel (it initialises the layer like any other batch)
     if layer == "actnorm4d":
         return torch.randn(n, F, 2, 3, generator=g) * (0.5 + 2 * torch.rand(1, F, 1, 1, generator=g)) + 3 * torch.randn(1, F, 1, 1, generator=g)
     return torch.randn(n, F, generator=g) * (0.5 + 2 * torch.rand(1, F, generator=g)) + 3 * torch.randn(1, F, generator=g)
